@@ -32,9 +32,19 @@ import (
 // ---------------------------------------------------------------- generation (parent and child agree)
 
 type spec struct {
-	Index int
-	Opts  plangen.Opts
-	Kinds []int
+	Index  int
+	Opts   plangen.Opts
+	Kinds  []int
+	Tamper string // valid plans only: how the stored plan is altered (through the vault) before Start
+}
+
+// tampers: "u:" = after a real Submit, through the vault's Update methods; "c:" = the plan is given ids,
+// states and a submit time by the harness (walk + Defaults, as Submit does) and stored with vault.Create.
+var tampers = []string{
+	"u:state-running", "u:state-completed", "u:state-failed", "u:state-stopped", "u:state-start-set", "u:state-end-set",
+	"u:attempts-set", "u:reason-set",
+	"c:untouched", "c:id-v4", "c:id-other-version", "c:submit-zero", "c:submit-31min-old", "c:submit-29min-old",
+	"c:non-check-in-group",
 }
 
 func specOf(i int) spec {
@@ -44,6 +54,9 @@ func specOf(i int) spec {
 		GroupP: []float64{0.15, 0.3, 0.5, 0.8}[i%4], MaxBlocks: 1 + i%3, MaxSeqs: 1 + (i/3)%3, MaxActions: 1 + (i/9)%3,
 		KeyP: []float64{0.1, 0.4, 0.8}[(i/2)%3], AltP: 0.2}}
 	if i%5 == 0 {
+		if (i/5)%2 == 1 {
+			s.Tamper = tampers[(i/10)%len(tampers)]
+		}
 		return s // valid stream
 	}
 	m := i - i/5 - 1 // mutant number
@@ -98,6 +111,7 @@ type obs struct {
 	Flags    [3]bool  `json:"flags"` // returned id = stored id; ids new; submit time in window
 	Start    int      `json:"start"`
 	Fresh    bool     `json:"fresh"`
+	Tamper   string   `json:"tamper,omitempty"`
 	Errs     []string `json:"errs,omitempty"` // error texts, for humans only
 	Panic    string   `json:"panic,omitempty"`
 	Taint    bool     `json:"taint,omitempty"`
@@ -111,6 +125,7 @@ type line struct {
 
 type worker struct {
 	set    *c16lib.Set
+	vault  *sqlitevault.Vault
 	ws     *coercion.Workstream
 	dbPath string
 	conn   *sqlite.Conn
@@ -150,7 +165,7 @@ func newWorker(dir string) (*worker, error) {
 	if err != nil {
 		return nil, err
 	}
-	return &worker{set: set, ws: ws, dbPath: path, conn: conn, seen: map[uuid.UUID]bool{}}, nil
+	return &worker{set: set, vault: v, ws: ws, dbPath: path, conn: conn, seen: map[uuid.UUID]bool{}}, nil
 }
 
 func guard(f func()) (panicked string) {
@@ -193,7 +208,7 @@ func generate(i int, set *c16lib.Set) generated {
 	return g
 }
 
-func mkCase(g generated, o obs, storedTerm string) core.Case {
+func mkCase(g generated, o obs, storedTerm, startTerm string) core.Case {
 	v := "None"
 	if g.termV != g.termS {
 		v = core.Some(g.termV)
@@ -204,7 +219,7 @@ func mkCase(g generated, o obs, storedTerm string) core.Case {
 	}
 	term := core.App("Build_case", g.termS, v, core.B(g.regset), core.Nat(o.Validate), core.Nat(o.Submit),
 		core.List(delta), core.B(o.Shrunk), storedTerm,
-		core.List([]string{core.B(o.Flags[0]), core.B(o.Flags[1]), core.B(o.Flags[2])}), core.Nat(o.Start), core.B(o.Fresh))
+		core.List([]string{core.B(o.Flags[0]), core.B(o.Flags[1]), core.B(o.Flags[2])}), startTerm, core.Nat(o.Start), core.B(o.Fresh))
 	did := g.did
 	if len(did) == 0 {
 		did = []string{}
@@ -214,9 +229,9 @@ func mkCase(g generated, o obs, storedTerm string) core.Case {
 		Kind:       map[bool]string{true: "valid", false: "mutant"}[len(g.spec.Kinds) == 0],
 		Coq:        term,
 		Nontrivial: len(did) > 0 || g.objects > 3,
-		Hash:       core.Hash(g.termS, g.termV, fmt.Sprint(o.Validate, o.Submit, o.Delta, o.Stored, o.Start)),
+		Hash:       core.Hash(g.termS, g.termV, startTerm, fmt.Sprint(o.Validate, o.Submit, o.Delta, o.Stored, o.Start)),
 		Dist: map[string]any{"mutations": did, "requested": len(g.spec.Kinds), "objects": g.objects,
-			"validate": o.Validate, "submit": o.Submit, "start": o.Start},
+			"validate": o.Validate, "submit": o.Submit, "start": o.Start, "tamper": g.spec.Tamper},
 		Input:    map[string]any{"seed": core.Seed(), "index": g.spec.Index, "opts": g.spec.Opts, "kinds": kindNames(g.spec.Kinds), "applied": did},
 		Observed: o,
 	}
@@ -234,11 +249,165 @@ func kindNames(ks []int) []string {
 	return out
 }
 
+// start calls Workstream.Start and, when the plan was admitted, waits for it to finish so that it
+// does not run into later cases.
+func (w *worker) start(id uuid.UUID, o *obs) {
+	ctx := context.Background()
+	var err error
+	if p := guard(func() { err = w.ws.Start(ctx, id) }); p != "" {
+		o.Start, o.Taint = 2, true
+		if o.Panic == "" {
+			o.Panic = "Workstream.Start: " + p
+		}
+		return
+	}
+	o.Start = code(err)
+	if err != nil {
+		o.Errs = append(o.Errs, "Start: "+err.Error())
+		return
+	}
+	wctx, cancel := context.WithTimeout(ctx, 30*time.Second)
+	defer cancel()
+	if _, werr := w.ws.Wait(wctx, id); werr != nil {
+		o.Taint = true
+		o.Errs = append(o.Errs, "Wait after Start: "+werr.Error())
+	}
+}
+
+// readBack reads a stored plan and abstracts it (with the case's interning context).
+func (w *worker) readBack(cx *plancoq.Ctx, id uuid.UUID, o *obs) (*workflow.Plan, string) {
+	var sp *workflow.Plan
+	var err error
+	if p := guard(func() { sp, err = w.ws.Plan(context.Background(), id) }); p != "" {
+		o.Taint = true
+		o.Errs = append(o.Errs, "Plan(id) panicked: "+p)
+		return nil, "None"
+	}
+	if err != nil || sp == nil {
+		o.Errs = append(o.Errs, fmt.Sprintf("Plan(id): %v", err))
+		return nil, "None"
+	}
+	c16lib.CanonRequests(sp, false)
+	return sp, core.Some(cx.Plan(sp))
+}
+
+func pickObj(r *core.Rand, p *workflow.Plan, pred func(c16lib.Obj) bool) (c16lib.Obj, bool) {
+	var c []c16lib.Obj
+	for _, ob := range c16lib.Objects(p) {
+		if pred(ob) {
+			c = append(c, ob)
+		}
+	}
+	if len(c) == 0 {
+		return c16lib.Obj{}, false
+	}
+	return c[r.Intn(len(c))], true
+}
+
+// tamperUpdate alters one object of a stored plan through the vault's Update methods.
+func (w *worker) tamperUpdate(r *core.Rand, sp *workflow.Plan, how string) error {
+	ctx := context.Background()
+	any := func(c16lib.Obj) bool { return true }
+	ob, _ := pickObj(r, sp, any)
+	switch how {
+	case "u:attempts-set":
+		ob, _ = pickObj(r, sp, func(o c16lib.Obj) bool { return o.Kind == c16lib.KAction })
+		ob.A.Attempts = []*workflow.Attempt{{Start: time.Unix(1700000000, 0).UTC(), End: time.Unix(1700000001, 0).UTC()}}
+	case "u:reason-set":
+		ob = c16lib.Obj{Kind: c16lib.KPlan, P: sp}
+		sp.Reason = workflow.FRBlock
+	default:
+		st := *ob.State()
+		switch how {
+		case "u:state-running":
+			st.Status = workflow.Running
+		case "u:state-completed":
+			st.Status = workflow.Completed
+		case "u:state-failed":
+			st.Status = workflow.Failed
+		case "u:state-stopped":
+			st.Status = workflow.Stopped
+		case "u:state-start-set":
+			st.Start = time.Unix(1700000000, 0).UTC()
+		case "u:state-end-set":
+			st.End = time.Unix(1700000001, 0).UTC()
+		}
+	}
+	switch ob.Kind {
+	case c16lib.KPlan:
+		return w.vault.UpdatePlan(ctx, ob.P)
+	case c16lib.KChecks:
+		return w.vault.UpdateChecks(ctx, ob.C)
+	case c16lib.KBlock:
+		return w.vault.UpdateBlock(ctx, ob.B)
+	case c16lib.KSeq:
+		return w.vault.UpdateSequence(ctx, ob.S)
+	}
+	return w.vault.UpdateAction(ctx, ob.A)
+}
+
+// crafted stores a plan with vault.Create after doing by hand what Submit does (ids, states, submit
+// time), altered as `how` says; then reads it back and calls Start.
+func (w *worker) crafted(g generated, how string, o *obs) (startTerm string) {
+	ctx := context.Background()
+	r := core.NewRand(core.Seed()).Fork(uint64(g.spec.Index)).Fork(3)
+	b := build(g.spec, w.set, false)
+	p := b.plan
+	for _, ob := range c16lib.Objects(p) {
+		*ob.ID() = workflow.NewV7()
+		*ob.State() = &workflow.State{Status: workflow.NotStarted}
+		if ob.Kind == c16lib.KAction && ob.A.Timeout == 0 {
+			ob.A.Timeout = 30 * time.Second
+		}
+		if ob.Kind == c16lib.KBlock && ob.B.Concurrency < 1 {
+			ob.B.Concurrency = 1
+		}
+	}
+	p.SubmitTime = time.Now().UTC()
+	switch how {
+	case "c:id-v4":
+		ob, _ := pickObj(r, p, func(c16lib.Obj) bool { return true })
+		*ob.ID() = plangen.V4(r)
+	case "c:id-other-version":
+		ob, _ := pickObj(r, p, func(c16lib.Obj) bool { return true })
+		u := plangen.V7(r)
+		u[6] = (u[6] & 0x0f) | ([]byte{1, 3, 5, 6, 8}[r.Intn(5)] << 4)
+		*ob.ID() = u
+	case "c:submit-zero":
+		p.SubmitTime = time.Time{}
+	case "c:submit-31min-old":
+		p.SubmitTime = time.Now().UTC().Add(-31 * time.Minute)
+	case "c:submit-29min-old":
+		p.SubmitTime = time.Now().UTC().Add(-29 * time.Minute)
+	case "c:non-check-in-group":
+		if ob, ok := pickObj(r, p, func(o c16lib.Obj) bool { return o.Kind == c16lib.KAction && o.InChecks }); ok {
+			ob.A.Plugin = "verif/action"
+		}
+	}
+	var err error
+	if pn := guard(func() { err = w.vault.Create(ctx, p) }); pn != "" || err != nil {
+		o.Errs = append(o.Errs, fmt.Sprintf("vault.Create of the crafted plan failed: %v %s", err, pn))
+		return "None"
+	}
+	sp, term := w.readBack(g.cx, p.ID, o)
+	if sp == nil {
+		return "None"
+	}
+	o.Fresh = !sp.SubmitTime.Add(30 * time.Minute).Before(time.Now())
+	w.start(p.ID, o)
+	return term
+}
+
 func (w *worker) run(i int, startEvery int) line {
 	ctx := context.Background()
 	g := generate(i, w.set)
-	o := obs{Validate: 3, Submit: 3, Start: 3, Fresh: true}
-	storedTerm := "None"
+	o := obs{Validate: 3, Submit: 3, Start: 3, Fresh: true, Tamper: g.spec.Tamper}
+	storedTerm, startTerm := "None", "None"
+
+	if strings.HasPrefix(g.spec.Tamper, "c:") {
+		startTerm = w.crafted(g, g.spec.Tamper, &o)
+		return line{Idx: i, Case: mkCase(g, o, storedTerm, startTerm), Obs: o}
+	}
 
 	// (1) workflow.Validate on a twin whose actions carry the registry
 	bV := build(g.spec, w.set, false)
@@ -278,67 +447,54 @@ func (w *worker) run(i int, startEvery int) line {
 			o.Delta[k] = after[k] - before[k]
 		}
 	}
+	if o.Submit != 1 {
+		return line{Idx: i, Case: mkCase(g, o, storedTerm, startTerm), Obs: o}
+	}
 
 	// (3) the stored plan
-	if o.Submit == 1 {
-		var sp *workflow.Plan
-		if p := guard(func() { sp, err = w.ws.Plan(ctx, id) }); p != "" {
-			o.Taint = true
-			o.Errs = append(o.Errs, "Plan(id) panicked: "+p)
-		} else if err != nil {
-			o.Errs = append(o.Errs, "Plan(id): "+err.Error())
-		} else if sp != nil {
-			o.Stored = true
-			c16lib.CanonRequests(sp, false)
-			storedTerm = core.Some(g.cx.Plan(sp))
-			o.Flags[0] = sp.ID == id
-			o.Flags[1] = true
-			for _, ob := range c16lib.Objects(sp) {
-				u := *ob.ID()
-				if w.seen[u] {
-					o.Flags[1] = false
-				}
-			}
-			for _, ob := range c16lib.Objects(sp) {
-				w.seen[*ob.ID()] = true
-			}
-			st := sp.SubmitTime
-			o.Flags[2] = !st.Before(t0.Add(-time.Second)) && !st.After(t1.Add(time.Second))
-			o.Fresh = !st.Add(30 * time.Minute).Before(time.Now())
+	var sp *workflow.Plan
+	sp, storedTerm = w.readBack(g.cx, id, &o)
+	if sp == nil {
+		return line{Idx: i, Case: mkCase(g, o, storedTerm, startTerm), Obs: o}
+	}
+	o.Stored = true
+	o.Flags[0] = sp.ID == id
+	o.Flags[1] = true
+	for _, ob := range c16lib.Objects(sp) {
+		if w.seen[*ob.ID()] {
+			o.Flags[1] = false
+		}
+	}
+	for _, ob := range c16lib.Objects(sp) {
+		w.seen[*ob.ID()] = true
+	}
+	st := sp.SubmitTime
+	o.Flags[2] = !st.Before(t0.Add(-time.Second)) && !st.After(t1.Add(time.Second))
+	o.Fresh = !st.Add(30 * time.Minute).Before(time.Now())
 
-			// (4) Start: always when a check group holds a non-check plugin, else on a sample
-			nonCheck := false
-			for _, ob := range c16lib.Objects(sp) {
-				if ob.Kind == c16lib.KAction && ob.InChecks {
-					if _, chk, _ := w.set.Lookup(ob.A.Plugin, ob.A.Req); !chk {
-						nonCheck = true
-					}
-				}
-			}
-			if nonCheck || (startEvery > 0 && i%startEvery == 0) {
-				if p := guard(func() { err = w.ws.Start(ctx, id) }); p != "" {
-					o.Start, o.Taint = 2, true
-					if o.Panic == "" {
-						o.Panic = "Workstream.Start: " + p
-					}
-				} else {
-					o.Start = code(err)
-					if err != nil {
-						o.Errs = append(o.Errs, "Start: "+err.Error())
-					} else {
-						// let the plan finish so that it does not run into later cases
-						wctx, cancel := context.WithTimeout(ctx, 30*time.Second)
-						if _, werr := w.ws.Wait(wctx, id); werr != nil {
-							o.Taint = true
-							o.Errs = append(o.Errs, "Wait after Start: "+werr.Error())
-						}
-						cancel()
-					}
-				}
+	// (4) Start: always when a check group holds a non-check plugin or the stored plan was tampered
+	// with, else on a sample
+	nonCheck := false
+	for _, ob := range c16lib.Objects(sp) {
+		if ob.Kind == c16lib.KAction && ob.InChecks {
+			if _, chk, _ := w.set.Lookup(ob.A.Plugin, ob.A.Req); !chk {
+				nonCheck = true
 			}
 		}
 	}
-	return line{Idx: i, Case: mkCase(g, o, storedTerm), Obs: o}
+	tampered := false
+	if strings.HasPrefix(g.spec.Tamper, "u:") {
+		r := core.NewRand(core.Seed()).Fork(uint64(i)).Fork(3)
+		if err := w.tamperUpdate(r, sp, g.spec.Tamper); err != nil {
+			o.Errs = append(o.Errs, "tamper: "+err.Error())
+		} else if sp2, t := w.readBack(g.cx, id, &o); sp2 != nil {
+			startTerm, tampered = t, true
+		}
+	}
+	if nonCheck || tampered || (startEvery > 0 && i%startEvery == 0) {
+		w.start(id, &o)
+	}
+	return line{Idx: i, Case: mkCase(g, o, storedTerm, startTerm), Obs: o}
 }
 
 func workerMain(from, to, startEvery int, dir string) {
@@ -467,7 +623,7 @@ func main() {
 				tail = tail[len(tail)-3000:]
 			}
 			o := obs{Validate: 2, Submit: 2, Start: 3, Fresh: true, Panic: what + "\n" + tail, Taint: true}
-			w.Put(mkCase(g, o, "None"))
+			w.Put(mkCase(g, o, "None", "None"))
 			next++
 		}
 	}
